@@ -3,6 +3,8 @@ import Rp2.Props.Tables.Templates
 import Rp2.Props.Tables.Countries
 import Rp2.Props.Tables.Sheets
 import Rp2.Proofs.CliFiles
+import Rp2.Proofs.FracTypes
+import Rp2.Proofs.GenTotal
 /-! # C16 — every supported option combination runs to completion on every valid input
 Table-level obligations (decided over the tables regenerated from the source) and the structure of the CLI model. -/
 namespace Rp2.C16
@@ -23,4 +25,41 @@ theorem full_report_total (holderOf : Nat → String) (period : Int) (cs : List 
     ∃ rows, genFull true true holderOf period cs = .ok rows := genFull_total holderOf period cs
 theorem tax_sheet_fits (cpa : Bool) (holderOf : Nat → String) (period : Int) (st : GenState) (c : Computed) :
     (layoutAsset cpa holderOf period st c).dStart + c.fracs.length ≤ (layoutAsset cpa holderOf period st c).capacity := layout_fits cpa holderOf period st c
+/-- the tax-report generator model (US map; IE map after the repair of F11) can only fail when some fraction's transaction type has no
+    sheet; in particular the `IndexError` branch (sheet too small) is unreachable: every `append_rows` call adds 21 rows more than the
+    fractions of its type, whatever the number of assets sharing the sheet -/
+theorem tax_report_fails_only_on_unmapped_type (lm : Bool) (period : Int) (templateRows : Nat) (cs : List Computed) (ht : 7 ≤ templateRows)
+    (hty : ∀ p ∈ allFracs cs, (sheetOf lm p.2.f.ev.typ).isSome) : ∃ r, taxReport lm period templateRows cs = .ok r :=
+  taxReport_total lm period templateRows cs ht hty
+/-- … and on computed data of accepted input (OUT rows carry disposal types, which is what the parser model accepts, `mkOutRow_ok`) every
+    fraction's type has a sheet: the tax report model never ends in an internal error -/
+theorem tax_report_total (period : Int) (cs : List Computed)
+    (hc : ∀ c ∈ cs, ∃ asset acctName per allowNeg fromD toD sched ins outs intras,
+      compute asset acctName per allowNeg fromD toD sched ins outs intras = .ok c ∧ ∀ o ∈ outs, ValidOutType o.typ) :
+    ∃ r, taxReport true period 102 cs = .ok r := taxReport_total_on_computed period cs hc
+/-- **whole-run model**: a valid invocation (no option fault, the input computes) for which every generator of the country has a template
+    in the chosen language and its generator model succeeds exits with status 0 and writes exactly one report per generator, named
+    `<prefix><method or "mixed">_<generator>.ods`, in execution order. The generator hypotheses are discharged by the table theorems
+    (templates), `full_report_total`, `generator_tax_total`, `generator_jp_total`; for open_positions it is validated by correspondence. -/
+theorem valid_run_completes (o : Cli.Options) (acctName holderOf : Nat → String) (cfgAssets : List String) (sheets : List Cli.AssetIn)
+    (iso : String) (period : Nat) (defMethod : String) (methods gens : List String) (defLang : String) (sched : List (Int × Method)) (cs : List Computed)
+    (v : Cli.Valid o acctName cfgAssets sheets iso period defMethod methods gens defLang sched cs)
+    (hg : ∀ g ∈ Cli.ordered gens, Cli.hasTemplate iso (Cli.genBase g) (o.lang.getD defLang) = true ∧ ∃ rep, Cli.genReport o (Cli.genBase g) period holderOf cs = .ok rep) :
+    (Cli.run o acctName holderOf cfgAssets sheets).exit = 0 ∧
+    (Cli.run o acctName holderOf cfgAssets sheets).files.map (·.1) =
+      (Cli.ordered gens).map (fun g => Cli.fileName o.pfx (Cli.methodName (Cli.scheduleOf o defMethod)) (Cli.genBase g)) :=
+  Cli.run_complete o acctName holderOf cfgAssets sheets iso period defMethod methods gens defLang sched cs v hg
+theorem generator_full_total (o : Cli.Options) (period : Nat) (holderOf : Nat → String) (cs : List Computed) :
+    ∃ rep, Cli.genReport o "rp2_full_report" period holderOf cs = .ok rep := Cli.genReport_full o period holderOf cs
+theorem generator_tax_total (o : Cli.Options) (base : String) (period : Nat) (holderOf : Nat → String) (cs : List Computed)
+    (hb : base ≠ "rp2_full_report" ∧ base ≠ "open_positions" ∧ base ≠ "tax_report_jp")
+    (hc : ∀ c ∈ cs, ∃ asset acctName per allowNeg fromD toD sched ins outs intras,
+      compute asset acctName per allowNeg fromD toD sched ins outs intras = .ok c ∧ ∀ o ∈ outs, ValidOutType o.typ) :
+    ∃ rep, Cli.genReport o base period holderOf cs = .ok rep := Cli.genReport_tax o base period holderOf cs hb hc
+/-- the JP generator model succeeds unless both a from- and a to-date are given (finding F8) or a fee-bearing transfer's yen fee vanishes at
+    13 decimals (finding F13) -/
+theorem generator_jp_total (o : Cli.Options) (period : Nat) (holderOf : Nat → String) (cs : List Computed)
+    (hw : (o.fromD.isSome && o.toD.isSome) = false)
+    (hv : ∀ c ∈ cs, ∀ x ∈ c.intras, gt13 (dsub (ofUnits x.sent) (ofUnits x.recv)) 0 = true → gt13 (dmul (dsub (ofUnits x.sent) (ofUnits x.recv)) (ofUnits x.price)) 0 = true) :
+    ∃ rep, Cli.genReport o "tax_report_jp" period holderOf cs = .ok rep := Cli.genReport_jp o period holderOf cs hw hv
 end Rp2.C16
